@@ -37,6 +37,20 @@ def handleC11 (op : String) (input impl : Json) : Except String Json := do
       else if resClass impl == "panic" then ["no-panic"]
       else if g.wf then ["unexpected-error"] else []
     return reply m (sameRes impl m) viol
+  | "walkn" =>
+    -- several start points, repeats allowed: every ancestor of any start exactly once
+    let starts ← asNatList (← fld input "inputs")
+    let anc := (starts.flatMap (ancestors g)).eraseDups
+    let viol : List String :=
+      if resClass impl == "ok" then
+        match asNatList (fldD impl "val" Json.null) with
+        | .ok l =>
+          (if l.eraseDups.length == l.length then [] else ["walk-each-once"]) ++
+          (if anc.all l.contains && l.all anc.contains then [] else ["walk-visits-exactly-ancestors"])
+        | .error _ => ["bad-impl-output"]
+      else if resClass impl == "panic" then ["no-panic"]
+      else if g.wf then ["unexpected-error"] else []
+    return reply (Json.mkObj [("ancestors", jNats anc)]) viol.isEmpty viol
   | "seek" =>
     let inputs ← asNatList (← fld input "inputs")
     let m := jRes jOptNat (seekCommonAncestor g inputs)
